@@ -96,6 +96,10 @@ func die(code int, format string, a ...interface{}) {
 	os.Exit(code)
 }
 
+// isolated: violations of this engine in this binary are judged in a fresh process (the race
+// detector reports a given pair of stacks once per process).
+func isolated(e *Engine) bool { return e.Isolated || raceorc.Enabled }
+
 func binaryName() string {
 	return filepath.Base(os.Args[0])
 }
@@ -146,6 +150,20 @@ func runOne(e *Engine, t *tape.Tape, tier string) *core.Run {
 	run := core.NewRun(e.Prop, t, tier)
 	done := make(chan struct{})
 	var engineCrash interface{}
+	// In-call race probe (race binary, every engine but C16, which judges races itself): these
+	// engines drive dst from ONE goroutine, so a race report whose two accesses both lie in dst code
+	// means dst started goroutines of its own that touch shared state without synchronisation -
+	// the condition behind a "fatal error: concurrent map writes" that no recover() can stop, seen
+	// here whether or not the timing of this execution happens to crash.
+	probe := raceorc.Enabled && e.Init == nil
+	racesBefore := 0
+	if probe {
+		if err := raceorc.Init(); err != nil {
+			die(2, "race oracle: %v", err)
+		}
+		raceorc.Drain()
+		racesBefore = raceorc.Errors()
+	}
 	go func() {
 		defer close(done)
 		defer func() {
@@ -164,6 +182,18 @@ func runOne(e *Engine, t *tape.Tape, tier string) *core.Run {
 		case <-done:
 			if engineCrash != nil {
 				panic(engineCrash) // a defect of the harness itself: never a verdict about dst
+			}
+			if probe {
+				if n := raceorc.Errors() - racesBefore; n > 0 {
+					run.Add("in-call-race-reports", int64(n))
+					for _, r := range raceorc.Parse(raceorc.Drain()) {
+						if !strings.Contains(r.Sig, "outside-dst") && !strings.Contains(r.Sig, "unknown") {
+							run.Fail(strings.ToLower(e.Prop)+"/race-inside-call", r.Sig, "a single call into dst, made from one goroutine, raced with itself: dst runs goroutines of its own that share state without synchronisation (unsynchronised map access ends the process with a fatal error that cannot be recovered):\n%s", r.Text)
+							break
+						}
+					}
+				}
+				run.Count("in-call-race-probe-runs")
 			}
 			run.Finish()
 			return run
@@ -300,7 +330,7 @@ func cmdBatch(args []string) {
 			rf.ReplayCmd = fmt.Sprintf("./check replay %s", p)
 			writeJSON(p, rf)
 			st.Violations = append(st.Violations, p)
-			if len(st.Violations) >= *maxViol || e.Isolated {
+			if len(st.Violations) >= *maxViol || isolated(e) {
 				st.Stopped = "violations"
 				break
 			}
@@ -477,13 +507,13 @@ func cmdShrink(args []string) {
 	if e == nil {
 		die(2, "property %q is not built into %s", rf.Property, binaryName())
 	}
-	if e.Init != nil && !(*proc || e.Isolated) {
+	if e.Init != nil && !(*proc || isolated(e)) {
 		if err := e.Init(); err != nil {
 			die(2, "engine init: %v", err)
 		}
 	}
 	var test tester
-	if *proc || e.Isolated {
+	if *proc || isolated(e) {
 		dir, err := ioutil.TempDir("", "dstsim-shrink")
 		if err != nil {
 			die(2, "%v", err)
@@ -500,7 +530,7 @@ func cmdShrink(args []string) {
 	var bestViol = rf.Violation
 	bestDesc, bestEvents := rf.Description, rf.Events
 	par := 1
-	if *proc || e.Isolated {
+	if *proc || isolated(e) {
 		par = runtime.NumCPU() // candidates are OS processes: probe many at once
 	}
 	type outcome struct {
